@@ -266,7 +266,9 @@ def gen_specs(rng):
       v['shape'] = (2,)
       v['meta'] = {k: val for k, val in v['meta'].items() if k == 'tag'}
     specs.append(s)
-  alias = rng.choice(['none', 'none', 'none', 'same_twice', 'sub_object'])
+  # *_first: the first positional argument is not a Module but a bare Variable / a dict of Variables (standalone, or - 'shared' -
+  # also reachable from the next argument)
+  alias = rng.choice(['none', 'none', 'none', 'same_twice', 'sub_object', 'var_first', 'shared_var_first', 'dict_first'])
   return specs, alias
 
 
@@ -279,7 +281,22 @@ def build_args(specs, alias):
   elif alias == 'sub_object':
     mps = modules_by_path(roots[0])
     roots.append(mps[-1][1])
+  elif alias in ('var_first', 'shared_var_first', 'dict_first'):
+    import jax.numpy as jnp
+    C = G.classes()
+    own = [v for _, v in G.ref_leaves(roots[0]) if G._is_var(v)]
+    if alias == 'var_first' or (alias == 'shared_var_first' and not own):
+      first = C['Param'](jnp.asarray([3.0, -4.0]))
+    elif alias == 'shared_var_first':
+      first = own[-1]
+    else:
+      first = {'b': C['Param'](jnp.asarray([3.0, -4.0])), 'a': C['BatchStat'](jnp.asarray([0.5, 0.25]))}
+    roots.insert(0, first)
   return roots
+
+
+def first_module(args):
+  return next(a for a in args if _is_module(a))
 
 
 def arg_ids(args):
@@ -419,6 +436,8 @@ def case_jit_like(ctx, rng, kind, desc_base):
   from flax import nnx
   import jax.numpy as jnp
   specs, alias = gen_specs(rng)
+  if kind == 'cached_partial' and alias in ('var_first', 'shared_var_first', 'dict_first'):
+    alias = 'none'  # cached_partial caches graph nodes; bare Variables / containers of Variables are not in its documented domain
   # cached_partial documents that the final structure of graph nodes must be the same after each call: value-only programs there
   structural = rng.random() < 0.7 and kind != 'cached_partial'
   ret_kind = rng.choice(['scalar', 'scalar', 'node', 'both', 'wrap'] if structural else ['scalar', 'scalar', 'node', 'both'])
@@ -445,7 +464,7 @@ def case_jit_like(ctx, rng, kind, desc_base):
     tf = nnx.remat(f)
     call_t = lambda x: tf(*args_t, x)
   else:  # cached_partial(jit)
-    n_cached = 1 if alias == 'none' else len(args_t)
+    n_cached = 1 if alias in ('none', 'var_first', 'dict_first') else len(args_t)
     tf = nnx.cached_partial(nnx.jit(f), *args_t[:n_cached])
     rest = args_t[n_cached:]
     call_t = lambda x: tf(*rest, x)
@@ -485,15 +504,24 @@ def case_jit_like(ctx, rng, kind, desc_base):
     if call + 1 < n_calls and rng.random() < 0.5 and kind == 'jit':
       C = __import__('vf.gen.nnx_graph', fromlist=['x']).classes()
       for args in (args_e, args_t):
-        setattr(args[0], 'caller_added_%d' % call, C['Param'](jnp.asarray([7.0, 8.0])))
+        setattr(first_module(args), 'caller_added_%d' % call, C['Param'](jnp.asarray([7.0, 8.0])))
       ctx.event('caller_side_edits')
+
+
+def _same_objects(r, a):
+  """Graph nodes and Variables keep their identity; plain containers have value semantics (same keys, same member objects)."""
+  if isinstance(a, dict):
+    return isinstance(r, dict) and set(r) == set(a) and all(_same_objects(r[k], a[k]) for k in a)  # jax sorts dict keys
+  if isinstance(a, (list, tuple)):
+    return type(r) is type(a) and len(r) == len(a) and all(_same_objects(x, y) for x, y in zip(r, a))
+  return r is a
 
 
 def case_control_flow(ctx, rng, kind, desc_base):
   from flax import nnx
   import jax.numpy as jnp
   specs, alias = gen_specs(rng)
-  if kind in ('while_loop', 'fori_loop') and alias != 'none':
+  if kind in ('while_loop', 'fori_loop') and alias not in ('none', 'var_first', 'dict_first'):
     alias = 'none'
   desc = dict(desc_base, alias=alias)
   x = jnp.asarray([0.5, -1.0])
@@ -535,7 +563,7 @@ def case_control_flow(ctx, rng, kind, desc_base):
     res = nnx.while_loop(lambda val: val[-2] > 0, body, (*args_t, jnp.asarray(trips), x))
     # the loop returns the caller's objects
     for a, r in zip(args_t, res[:len(args_t)]):
-      ctx.check(r is a, 'identity:loop_result_is_a_copy:' + kind, lambda: dict(case=desc))
+      ctx.check(_same_objects(r, a), 'identity:loop_result_is_a_copy:' + kind, lambda: dict(case=desc))
     out_t = None
   else:  # fori_loop
     lo, n = rng.randint(0, 2), rng.randint(0, 3)
@@ -551,7 +579,7 @@ def case_control_flow(ctx, rng, kind, desc_base):
 
     res = nnx.fori_loop(lo, lo + n, body, (*args_t, x), unroll=unroll)
     for a, r in zip(args_t, res[:len(args_t)]):
-      ctx.check(r is a, 'identity:loop_result_is_a_copy:' + kind, lambda: dict(case=desc))
+      ctx.check(_same_objects(r, a), 'identity:loop_result_is_a_copy:' + kind, lambda: dict(case=desc))
     out_e = out_t = None
   ctx.op('nnx.' + kind)
   check_same_outcome(ctx, kind, args_e, args_t, corr, out_e if out_e is not None else 0.0, out_t if out_t is not None else 0.0, desc)
